@@ -115,6 +115,13 @@ Definition same_reading (r1 r2 : outcome aux) : Prop :=
   | _, _ => False
   end.
 
+(* one flattened piece after another: the second is reached only if the first was complete *)
+Definition seq_doc (e1 e2 : list visit * status) : list visit * status :=
+  match e1 with
+  | (vs, Complete) => let (vs', s') := e2 in (vs ++ vs', s')
+  | (vs, s) => (vs, s)
+  end.
+
 (* a visit stands in the document: its file exists, its line is the v_lineno-th line of that
    file, command_re recognises it as that command with that value, v_line is its stripped text *)
 Definition stands_in (fs : str -> option str) (v : visit) : Prop :=
